@@ -75,7 +75,8 @@ def put(cx, chk, cfg, F):
             # demotion
             full = None
             for c, t, e in facts:
-                if e["depth"] != 0:
+                # the test is made by the cache itself: in `put` or in one of its own helpers (not inside the segmented cache's operations)
+                if e["depth"] != 0 and "WTinyLFUCache" not in (F.fns.get(e["fn"], {}).get("q") or ""):
                     continue
                 r = norm_cmp(c, t, lambda x: isinstance(x, tuple) and x[0] == "len" and ("len", x[1], 0) == lenof(PT))
                 if r and r[2] in (("load", ("H", SELF, ("slru", "protected_size")), 0), ("load", ("H", SELF, ("slru", "protected", "cap")), 0)):
